@@ -895,3 +895,141 @@ func ast_inspectValueSpec(file *ast.File, name string, f func(lits []string)) {
 		}
 	}
 }
+
+func init() {
+	extraRules["C10"] = append(extraRules["C10"], func(r *R) { loadManifestCarriedCells(r, "C10-R9") })
+	extraRules["C09"] = append(extraRules["C09"], func(r *R) { loadManifestCarriedCells(r, "C09-R9") })
+}
+
+// loadManifestCarriedCells: C10-R7 looks at the loop-carried *registers* (phis) of loadManifest's per-stream loop.
+// A variable captured by a closure lives in a heap cell instead and escapes that view. This rule covers the cells:
+// a variable declared outside the per-stream loop and assigned inside it must be reset (to a constant, a fresh
+// value or its own [:0] reslice) before anything else touches it in the iteration.
+func loadManifestCarriedCells(r *R, rule string) {
+	r.Rule(rule, "loadManifest: a variable that lives across streams and is assigned inside the per-stream loop (also one held in a closure cell) is reset at the top of every iteration before any other use — no block-position table of one stream is consulted for the next", 1)
+	fn := r.NeedFn(rule, "(*"+arv+".dirnode).loadManifest")
+	if fn == nil {
+		return
+	}
+	var outer *ssa.BasicBlock
+	for _, c := range CallsIn(fn, "(*"+arv+".dirnode).createFileAndParents") {
+		for h := loopHeaderOf(c.Block()); h != nil; h = loopHeaderOf(h.Idom()) {
+			outer = h
+			if h.Idom() == nil {
+				break
+			}
+		}
+	}
+	if outer == nil {
+		r.Und(rule, fn, "per-stream loop", fn.Pos(), "not found")
+		return
+	}
+	body := loopBody(outer)
+	fresh := func(v ssa.Value, cell *ssa.Alloc) bool {
+		v = Strip(v)
+		switch x := v.(type) {
+		case *ssa.Const:
+			return true
+		case *ssa.MakeSlice, *ssa.MakeMap:
+			return true
+		case *ssa.Slice:
+			if h, ok := ConstInt(x.High); ok && h == 0 && x.High != nil {
+				return true
+			}
+			if al, ok := x.X.(*ssa.Alloc); ok && al != cell && body[al.Block()] {
+				return true // slice literal built in this iteration
+			}
+		}
+		return false
+	}
+	var carried []string
+	nCells := 0
+	for _, b := range fn.Blocks {
+		if body[b] {
+			continue
+		}
+		for _, in := range b.Instrs {
+			al, ok := in.(*ssa.Alloc)
+			if !ok || al.Comment == "varargs" || al.Comment == "slicelit" || al.Comment == "complit" {
+				continue
+			}
+			// accesses inside the loop body (in fn itself, or through closures created in the body)
+			var stores []*ssa.Store
+			var others []ssa.Instruction
+			for _, ref := range *al.Referrers() {
+				if ref.Parent() != fn || !body[ref.Block()] {
+					continue
+				}
+				if st, ok := ref.(*ssa.Store); ok && st.Addr == ssa.Value(al) {
+					stores = append(stores, st)
+				} else {
+					others = append(others, ref)
+				}
+			}
+			writtenInClosure := false
+			for _, ref := range *al.Referrers() {
+				if mc, ok := ref.(*ssa.MakeClosure); ok && body[mc.Block()] {
+					cl := mc.Fn.(*ssa.Function)
+					for i, bnd := range mc.Bindings {
+						if bnd == ssa.Value(al) && i < len(cl.FreeVars) && freeVarWritten(cl, cl.FreeVars[i]) {
+							writtenInClosure = true
+						}
+					}
+				}
+			}
+			if len(stores) == 0 && !writtenInClosure {
+				continue // read-only inside the loop: not per-stream state
+			}
+			nCells++
+			// a reset store that every path from the top of the iteration passes before any other access
+			var resets []ssa.Instruction
+			for _, st := range stores {
+				if fresh(st.Val, al) {
+					resets = append(resets, st)
+				}
+			}
+			ok2 := len(resets) > 0
+			if ok2 {
+				for _, o := range append(others, storeInstrs(stores)...) {
+					isReset := false
+					for _, rs := range resets {
+						if rs == o {
+							isReset = true
+						}
+					}
+					if isReset {
+						continue
+					}
+					// the load feeding a reset (`segments = segments[:0]`) is part of the reset
+					feeds := false
+					if u, isU := o.(*ssa.UnOp); isU {
+						for _, rs := range resets {
+							if sl, isS := Strip(rs.(*ssa.Store).Val).(*ssa.Slice); isS && sl.X == ssa.Value(u) {
+								feeds = true
+							}
+						}
+					}
+					if feeds {
+						continue
+					}
+					if !MustPassBetween(outer.Instrs[0], o, resets) {
+						ok2 = false
+					}
+				}
+			}
+			if !ok2 {
+				carried = append(carried, al.Comment)
+			}
+		}
+	}
+	r.Check(len(carried) == 0, rule, fn, "cells carried across streams", outer.Instrs[0].Pos(), itoa(nCells)+" cell(s) assigned in the loop, each reset at the top of the iteration",
+		"per-stream state leaks into the next stream through a captured variable: "+strings.Join(carried, ", ")+" — file tokens of a later stream are mapped with another stream's block positions (wrong bytes, or a valid manifest rejected)")
+}
+
+func storeInstrs(s []*ssa.Store) []ssa.Instruction {
+	var out []ssa.Instruction
+	for _, x := range s {
+		out = append(out, x)
+	}
+	return out
+}
